@@ -473,6 +473,141 @@ theorem areaLoop_spec {o : Int} (ho : validCell g.nrows g.ncols o = true)
         · exact Or.inr (Or.inl h)
 
 
+/-! ### the loop succeeds whenever the buffers have room -/
+
+theorem store_fold_room (nval : Int) (inlets : List Int) :
+    ∀ (l : List Int) (st : Acc), st.buf2.length ≤ st.area.length →
+      (st.area.length : Int) + ((l.filter (fun u => decide (u ∉ inlets))).length : Int) ≤ nval - 1 →
+      ∃ st', l.foldlM (store nval inlets) st = .ok st' ∧
+          st'.area = st.area ++ l.filter (fun u => decide (u ∉ inlets)) ∧
+          st'.buf2 = st.buf2 ++ l.filter (fun u => decide (u ∉ inlets)) := by
+  intro l
+  induction l with
+  | nil => intro st _ _; exact ⟨st, rfl, by simp, by simp⟩
+  | cons a l ih =>
+    intro st hb hroom
+    rw [List.foldlM_cons]
+    by_cases ha : a ∈ inlets
+    · have hs : store nval inlets st a = .ok st := by unfold store; rw [if_pos ha]
+      have hf : (a :: l).filter (fun u => decide (u ∉ inlets)) = l.filter (fun u => decide (u ∉ inlets)) := by
+        rw [List.filter_cons_of_neg (by simpa using ha)]
+      rw [hs, hf]
+      rw [hf] at hroom
+      exact ih st hb hroom
+    · have hf : (a :: l).filter (fun u => decide (u ∉ inlets)) = a :: l.filter (fun u => decide (u ∉ inlets)) := by
+        rw [List.filter_cons_of_pos (by simpa using ha)]
+      rw [hf, List.length_cons] at hroom
+      push_cast at hroom
+      have h1 : ¬ (st.area.length : Int) = nval - 1 := by omega
+      have h2 : ¬ (st.buf2.length : Int) = nval - 1 := by omega
+      have hs : store nval inlets st a = .ok { area := st.area ++ [a], buf2 := st.buf2 ++ [a] } := by
+        unfold store; rw [if_neg ha, if_neg h1, if_neg h2]
+      rw [hs]
+      obtain ⟨st', e1, e2, e3⟩ := ih { area := st.area ++ [a], buf2 := st.buf2 ++ [a] }
+        (by simp; omega) (by simp; omega)
+      refine ⟨st', e1, ?_, ?_⟩
+      · rw [e2, hf]; simp
+      · rw [e3, hf]; simp
+
+theorem expand_fold_room (nval : Int) (inlets : List Int) :
+    ∀ (buf1 : List Int) (st : Acc), st.buf2.length ≤ st.area.length →
+      (st.area.length : Int) + ((buf1.flatMap (upF codes g inlets)).length : Int) ≤ nval - 1 →
+      ∃ st', buf1.foldlM (expandCell codes g nval inlets) st = .ok st' ∧
+          st'.area = st.area ++ buf1.flatMap (upF codes g inlets) ∧
+          st'.buf2 = st.buf2 ++ buf1.flatMap (upF codes g inlets) := by
+  intro buf1
+  induction buf1 with
+  | nil => intro st _ _; exact ⟨st, rfl, by simp, by simp⟩
+  | cons c cs ih =>
+    intro st hb hroom
+    rw [List.foldlM_cons]
+    rw [List.flatMap_cons, List.length_append] at hroom
+    push_cast at hroom
+    obtain ⟨st1, e1, e2, e3⟩ := store_fold_room nval inlets (upstreamCells codes g c) st hb
+      (by unfold upF at hroom; omega)
+    have hx : expandCell codes g nval inlets st c = .ok st1 := e1
+    rw [hx]
+    obtain ⟨st', f1, f2, f3⟩ := ih st1
+      (by rw [e2, e3, List.length_append, List.length_append]; omega)
+      (by rw [e2, List.length_append]; push_cast; unfold upF at hroom; omega)
+    refine ⟨st', f1, ?_, ?_⟩
+    · rw [f2, e2, List.flatMap_cons, List.append_assoc]; rfl
+    · rw [f3, e3, List.flatMap_cons, List.append_assoc]; rfl
+
+/-- if the search stops at layer `n` and everything still to be stored fits below `nval`, the loop returns -/
+theorem areaLoop_room {o : Int} (ho : validCell g.nrows g.ncols o = true)
+    (inlets : List Int) (nval : Int) (n : Nat)
+    (hstop : Bfs.layer (upStep codes g inlets) o (n + 1) = []) :
+    ∀ (fuel k : Nat) (area : List Int), k ≤ n →
+      (area.length : Int) + (if k = 0 ∧ 1 ≤ n then 1 else 0) +
+        ((Bfs.layersFrom (upStep codes g inlets) o k (n - k)).length : Int) ≤ nval - 1 →
+      nval - area.length ≤ fuel →
+      ∃ A, areaLoop codes g o inlets nval fuel k area (Bfs.layer (upStep codes g inlets) o k) = .ok A := by
+  intro fuel
+  induction fuel with
+  | zero =>
+    intro k area _ h1 h2; exfalso
+    have : (0 : Int) ≤ ((Bfs.layersFrom (upStep codes g inlets) o k (n - k)).length : Int) := by omega
+    split at h1 <;> (push_cast at h2; omega)
+  | succ fuel ih =>
+    intro k area hkn hroom hfuel
+    have hval := layer_valid (codes := codes) (inlets := inlets) ho k
+    have hnext : (Bfs.layer (upStep codes g inlets) o k).flatMap (upF codes g inlets) =
+        Bfs.layer (upStep codes g inlets) o (k + 1) := by
+      rw [flatMap_upF_eq _ hval]; rfl
+    -- the next layer is part of what is still to be stored (or empty)
+    have hpart : ((Bfs.layer (upStep codes g inlets) o (k + 1)).length : Int) ≤
+        ((Bfs.layersFrom (upStep codes g inlets) o k (n - k)).length : Int) := by
+      by_cases hk : k = n
+      · subst hk; rw [hstop]; simp
+      · have : n - k = (n - (k + 1)) + 1 := by omega
+        rw [this, Bfs.layersFrom_succ, List.length_append]; push_cast; omega
+    have hc0 : (0 : Int) ≤ (if k = 0 ∧ 1 ≤ n then (1 : Int) else 0) := by split <;> omega
+    obtain ⟨st', e1, e2, e3⟩ := expand_fold_room (codes := codes) (g := g) nval inlets
+      (Bfs.layer (upStep codes g inlets) o k) { area := area, buf2 := [] } (by simp)
+      (by rw [hnext]; simp only []; omega)
+    rw [hnext] at e2 e3
+    simp only [List.nil_append] at e3
+    simp only [] at e2
+    have hx : expandLayer codes g nval inlets area (Bfs.layer (upStep codes g inlets) o k) = .ok st' := e1
+    by_cases hnil : Bfs.layer (upStep codes g inlets) o (k + 1) = []
+    · exact ⟨st'.area, by simp only [areaLoop, hx, e3, hnil, if_true]⟩
+    · have hk1 : k + 1 ≤ n := by
+        by_contra hcon
+        have : k = n := by omega
+        subst this; exact hnil hstop
+      have hsplit : n - k = (n - (k + 1)) + 1 := by omega
+      have hlen : 0 < (Bfs.layer (upStep codes g inlets) o (k + 1)).length := List.length_pos_iff.2 hnil
+      rw [hsplit, Bfs.layersFrom_succ, List.length_append] at hroom
+      push_cast at hroom
+      have hlen2 : st'.area.length = area.length + (Bfs.layer (upStep codes g inlets) o (k + 1)).length := by
+        rw [e2, List.length_append]
+      by_cases hk : k = 0
+      · subst hk
+        rw [if_pos ⟨rfl, by omega⟩] at hroom
+        have hfull : ¬ (st'.area.length : Int) = nval - 1 := by rw [hlen2]; push_cast; omega
+        have hrec : areaLoop codes g o inlets nval (fuel + 1) 0 area (Bfs.layer (upStep codes g inlets) o 0) =
+            areaLoop codes g o inlets nval fuel 1 (st'.area ++ [o]) (Bfs.layer (upStep codes g inlets) o 1) := by
+          simp only [areaLoop, hx, e3, hnil, if_false, if_true, hfull]
+        rw [hrec]
+        apply ih 1 (st'.area ++ [o]) hk1
+        · have hc2 : ¬ (1 = 0 ∧ 1 ≤ n) := by omega
+          rw [if_neg hc2, List.length_append, List.length_singleton, hlen2]
+          push_cast
+          simp only [Nat.zero_add] at hroom
+          omega
+        · rw [List.length_append, List.length_singleton, hlen2]; push_cast; push_cast at hfuel; omega
+      · have hc1 : ¬ (k = 0 ∧ 1 ≤ n) := by omega
+        rw [if_neg hc1] at hroom
+        have hrec : areaLoop codes g o inlets nval (fuel + 1) k area (Bfs.layer (upStep codes g inlets) o k) =
+            areaLoop codes g o inlets nval fuel (k + 1) st'.area (Bfs.layer (upStep codes g inlets) o (k + 1)) := by
+          simp only [areaLoop, hx, e3, hnil, if_false, hk]
+        rw [hrec]
+        apply ih (k + 1) st'.area hk1
+        · have hc2 : ¬ (k + 1 = 0 ∧ 1 ≤ n) := by omega
+          rw [if_neg hc2, hlen2]; push_cast; omega
+        · rw [hlen2]; push_cast; push_cast at hfuel; omega
+
 /-- `c` reaches `o` in exactly `k` steps of the downstream chain, none of the `k` cells it leaves being an
 inlet (or off the grid, a sink, an exit) -/
 def Reaches (codes : List Int) (g : FlowGrid) (inlets : List Int) (k : Nat) (c o : Int) : Prop :=
